@@ -3,11 +3,56 @@ package c18
 import (
 	"fmt"
 	"strings"
+	"time"
 
 	"verif/harness/pbt"
 )
 
 var steppedPart = pbt.Part[Case]{Name: "stepped", Quick: 2400, Thorough: 40000, Gen: genStepped, Check: checkCase}
+// pingPart: heartbeat silence on some connections must end exactly the subscriptions on them. Real
+// timers are involved, so the part is small and its slack is one-sided (see checkPing).
+var pingPart = pbt.Part[Case]{Name: "ping", Quick: 48, Thorough: 640, Gen: genPing, Check: checkPing}
+
+// checkPing runs a ping case. A healthy connection has a whole PingInterval (>= 400 ms) to answer a ping
+// that takes microseconds on loopback. If a healthy connection is closed by the client nevertheless, the
+// upstream's own record decides: it answered every ping promptly => the client is wrong (recorded
+// finding: timestamp race in sendPing); it was slow itself (stalled process) => inconclusive.
+func checkPing(c Case, rec *pbt.Rec) pbt.Verdict {
+	if msg := wellFormed(c); msg != "" || c.Ping == nil {
+		return pbt.Bad("malformed ping case: %s", msg)
+	}
+	o := run(c)
+	if len(o.inconclusive) > 0 {
+		rec.Discard("inconclusive:" + firstWord(o.inconclusive[0]))
+		return pbt.OK
+	}
+	o.w.mu.Lock()
+	slow := false
+	for _, uc := range o.w.conns {
+		if !c.silentTuple(uc.tuple) && uc.pongLat > time.Duration(c.Ping.IntervalMs)*time.Millisecond/4 {
+			slow = true
+		}
+	}
+	o.w.mu.Unlock()
+	vs := judge(o)
+	if slow && len(vs) > 0 {
+		rec.Discard("inconclusive:upstream-pong-slow")
+		return pbt.OK
+	}
+	classify(c, o, rec)
+	rec.Label("ping:cases")
+	o.w.mu.Lock()
+	for i, st := range o.w.subs {
+		if st.silenced {
+			rec.Label("ping:subscription-on-silent-connection")
+		} else if st.started && !c.silentTuple(c.Subs[i].Tuple) && len(st.sent) > 0 {
+			rec.Label("ping:subscription-on-healthy-connection-with-traffic")
+		}
+	}
+	o.w.mu.Unlock()
+	return verdict(vs, c)
+}
+
 var burstPart = pbt.Part[Case]{Name: "burst", Quick: 2400, Thorough: 40000, Gen: genBurst, Check: checkCase}
 
 // checkCase executes a case against the real client and judges it. Pure function of the case and
@@ -92,7 +137,7 @@ func wellFormed(c Case) string {
 			if s.Key < 0 || s.Key >= len(c.Tuples) {
 				return "step tuple out of range"
 			}
-		case "idle":
+		case "idle", "silence", "ticks":
 		default:
 			return "unknown step " + s.Op
 		}
@@ -125,6 +170,9 @@ func classify(c Case, o *outcome, rec *pbt.Rec) {
 	defer w.mu.Unlock()
 	for _, a := range o.aidExpired {
 		rec.Label("aid-expired:" + a)
+	}
+	if o.idleWaited {
+		rec.Label("idle-timer-pending-on-reused-conn-with-live-subs")
 	}
 	if c.stepped() {
 		rec.Label("mode:stepped")
